@@ -42,7 +42,9 @@ func genC12(tier string, rng *RNG, w *CaseWriter) {
 			if k%3 == 0 {
 				st = stRef
 			}
+			revRootNamesSources = k%5 == 3
 			emitRev(w, buildPlanCase(k%3%2, purp, plans, st, k%9 == 2), true, "valid")
+			revRootNamesSources = false
 			if n == 1 && k > 6 {
 				break
 			}
